@@ -14,16 +14,25 @@ import (
 var errC05Cause = errors.New("c05: the cause given to the cancel function")
 
 func init() {
-	Register(Harness{Prop: "C05", Name: "C05/waitcond", Run: c05WaitCond})
+	Register(Harness{Prop: "C05", Name: "C05/waitcond", Run: func() { c05WaitCond(false) }})
+	// the same with a cond whose locker is the read side of an RWMutex (waiters hold the read lock,
+	// whoever changes the condition holds the write lock): legal for sync.Cond, see D6 in DESIGN.md section 7
+	Register(Harness{Prop: "C05", Name: "C05/waitcond-rlocker", Run: func() { c05WaitCond(true) }})
 	Register(Harness{Prop: "C05", Name: "C05/get", Run: c05Get, Weight: 2})
 }
 
 // c05WaitCond: 1-3 waiters on one cond, each waiting for a shared counter to reach its own target
 // under its own context; setters increment the counter and broadcast under the lock; cancellers
 // cancel contexts; some waiters are never satisfied and never cancelled until the final phase.
-func c05WaitCond() {
-	var mu sync.Mutex
+func c05WaitCond(rlocker bool) {
+	var mu sync.RWMutex // used as a plain mutex unless rlocker
 	cond := sync.NewCond(&mu)
+	waiterLock, waiterUnlock := mu.Lock, mu.Unlock
+	if rlocker {
+		cond = sync.NewCond(mu.RLocker())
+		waiterLock, waiterUnlock = mu.RLock, mu.RUnlock
+		simrt.Probe("cond_on_read_locker")
+	}
 	counter := 0
 	nw := simrt.DrawRange(1, 3*simrt.Scale())
 	incs := simrt.DrawRange(0, 3*simrt.Scale())
@@ -61,7 +70,7 @@ func c05WaitCond() {
 	for _, w := range ws {
 		w := w
 		go func() {
-			mu.Lock()
+			waiterLock()
 			err := bigbuff.WaitCond(w.ctx, cond, func() bool {
 				w.predCalls++
 				if mu.TryLock() {
@@ -71,7 +80,7 @@ func c05WaitCond() {
 				w.lastPred = counter >= w.target
 				return w.lastPred
 			})
-			mu.Unlock()
+			waiterUnlock()
 			w.err = err
 			w.returned = true
 		}()
@@ -108,7 +117,11 @@ func c05WaitCond() {
 			}
 			must := counter >= w.target || w.cancelled
 			if must && !w.returned {
-				simrt.Failf("C05.lost-wakeup", "%s: waiter %d (target %d, counter %d, cancelled %v) is still blocked at quiescence", phase, i, w.target, counter, w.cancelled)
+				why := ""
+				if counter < w.target {
+					why = " (its predicate is false: only the cancellation of its context can release it)"
+				}
+				simrt.Failf("C05.lost-wakeup", "%s: waiter %d (target %d, counter %d, cancelled %v) is still blocked at quiescence%s", phase, i, w.target, counter, w.cancelled, why)
 				return false
 			}
 			if w.returned {
